@@ -108,7 +108,8 @@ var schemas = map[string][]field{
 	"CandRIB":           {{"Afts", "Afts", kPtr("CandAfts")}},
 	"CandAfts": {{"NextHop", "NextHop", kind{k: "list", s: "CandNH", elemNN: true, keyed: true}}, {"NextHopGroup", "NextHopGroup", kind{k: "list", s: "CandNHG", elemNN: true, keyed: true}},
 		{"Ipv4Entry", "Ipv4Entry", kind{k: "list", s: "CandTop", elemNN: true, keyed: true}}, {"Ipv6Entry", "Ipv6Entry", kind{k: "list", s: "CandTop", elemNN: true, keyed: true}},
-		{"LabelEntry", "LabelEntry", kind{k: "list", s: "CandTop", elemNN: true, keyed: true}}},
+		{"LabelEntry", "LabelEntry", kind{k: "list", s: "CandTop", elemNN: true, keyed: true}},
+		{"MacEntry", "MacEntry", kind{k: "list", s: "Unit", elemNN: true}}, {"PolicyForwardingEntry", "PolicyForwardingEntry", kind{k: "list", s: "Unit", elemNN: true}}},
 	"CandNH":    {{"Key", "Key", kNat}, {"Index", "Index", kNat}},
 	"CandNHG":   {{"Key", "Key", kNat}, {"Id", "Id", kNat}, {"NextHop", "NextHop", kind{k: "list", s: "CandNH", elemNN: true, keyed: true}}},
 	"CandTop":   {{"Key", "Key", kNat}, {"NextHopGroup", "NextHopGroup", kNat}, {"NextHopGroupNetworkInstance", "NextHopGroupNetworkInstance", kStr}},
